@@ -1370,11 +1370,12 @@ class Vector():
 			if (self._dtype is not None and other.schema() is not None
 					and not self._dtype.nullable and not other.schema().nullable and self._dtype.kind != other.schema().kind):
 				raise SerifTypeError("Cannot concatenate two typesafe Vectors of different types")
-			return Vector(self._underlying + other._underlying,
+			# (*a, *b) always builds a new tuple; a + () would hand back a itself
+			return Vector((*self._underlying, *other._underlying),
 				dtype=extended_dtype(other._underlying))
 		if isinstance(other, Iterable) and not isinstance(other, (str, bytes, bytearray)):
 			appended = tuple(other)
-			return Vector(self._underlying + appended,
+			return Vector((*self._underlying, *appended),
 				dtype=extended_dtype(appended))
 		return Vector(self._underlying + (other,),
 				dtype=extended_dtype((other,)))
@@ -1410,7 +1411,7 @@ class Vector():
 		"""
 		# Convert other to Vector and concatenate with self
 		if isinstance(other, Iterable) and not isinstance(other, (str, bytes, bytearray)):
-			return Vector(tuple(other) + self._underlying,
+			return Vector((*other, *self._underlying),
 				None,  # other doesn't have a default element
 				None,
 				False)
